@@ -10,8 +10,10 @@ META = {
     '.children after the pass in the other axis); the two marking '
     'conditions are the exact complements of the window h_t/K < h_x^sigma '
     '< K h_t (monomial normal form) and flow to the refinement of the '
-    'matching axis; the sweep repeats until nothing is marked; no '
-    'coarsening writer exists.',
+    'matching axis; the sweep repeats until nothing is marked; every '
+    'refinement goes through the public bisection entry points with their '
+    'default (closure-preserving) behaviour; a memoised classification '
+    'quantity is keyed on everything it depends on.',
     'checker_cmd': 'python3-vt -m stbem_static C19 --tier <tier>',
     'trusted_base': ['CPython ast', 'paper argument A.2 (closure only '
                      'bisects strictly lower levels; 1-irregularity)',
@@ -22,8 +24,10 @@ META = {
 def run(prog, report, tier):
     stale.check_drivers(prog, report, only={'Mesh.refine_grading'})
     meshrules.check_window(prog, report)
+    meshrules.check_entry(prog, report)
     report.floor('R-stale', 2)
     report.floor('R-window', 4)
+    report.floor('R-entry', 2)
     report.assumptions.append(
         'mesh invariants J1-J7 (decided as premises under C02/C10) hold on '
         'entry')
